@@ -123,7 +123,12 @@ class Mol(object):
         self.smi = smi
         self.m = Chem.MolFromSmiles(smi)
         self.canon = Chem.MolToSmiles(self.m)
-        self.stereo = MD.has_stereo(self.m)
+        # spellings of stereo molecules and of molecules with '~' bonds are
+        # produced by RDKit from the renumbered object (the ring-closure
+        # writer cannot carry those marks)
+        self.stereo = MD.has_stereo(self.m) or any(
+            str(b.GetBondType()) in ('UNSPECIFIED', 'DATIVE', 'ZERO')
+            for b in self.m.GetBonds())
         self.kek = Chem.Mol(self.m)
         Chem.Kekulize(self.kek, clearAromaticFlags=True)
         self.n = self.m.GetNumAtoms()
